@@ -281,7 +281,8 @@ func EachLayoutX(i, n int, gaps []string, f func(l Layout, varied, src string)) 
 
 // SameTokens reports whether the varied text still reads as the layout's tokens: a spelling without
 // a blank between two words ("sstring") is a different program, written by a different author.
-// Semicolons the Go scanner inserts at line ends are not counted.
+// A semicolon the Go scanner inserts at a line end inside the text counts as a token ("return" and
+// a line break is another statement than "return x"); one after the last token does not.
 func SameTokens(l Layout, varied string) bool {
 	return strings.Join(goTokens(strings.Join(l.Toks, " ")), "\x00") == strings.Join(goTokens(varied), "\x00")
 }
@@ -297,13 +298,14 @@ func goTokens(src string) []string {
 		if tok == token.EOF {
 			break
 		}
-		if tok == token.SEMICOLON && lit == "\n" {
-			continue
-		}
 		if lit == "" {
 			lit = tok.String()
 		}
 		out = append(out, lit)
+	}
+	// a line break after the last token ends nothing that was not ended anyway
+	for len(out) > 0 && out[len(out)-1] == "\n" {
+		out = out[:len(out)-1]
 	}
 	return out
 }
